@@ -19,7 +19,7 @@ var reShiftDst = regexp.MustCompile(`^(.*)\[(.*):\]$`)
 
 // C02: distilled text is an ordered excerpt of the source.
 func C02(p *core.Program, r *core.Report) {
-	r.Explanation = "Order-preservation skeleton: between `the walk visits text nodes in document order` and `the output concatenates content elements` no step can reorder or duplicate. O1: the child loops on the output paths (WalkNodes, TreeClone, InnerText, dom.Clone) start at FirstChild, advance by NextSibling and attach with AppendChild only. O2: every writer of the sequence carriers (Document.Elements, TextDocument.TextBlocks, TextBlock.TextElements, TextBuilder.textNodes, Text.TextNodes) is an append to the field itself, the constructor's initial value, or the shift-left-by-one delete idiom (copy(s[i:], s[i+1:]) + truncate) on the same slice; none is sorted and no element is overwritten. O3: TextBuilder.Build hands out the window [firstNode, len(textNodes)) and every non-nil result is followed by Reset, which moves firstNode to len(textNodes) (disjoint windows). O4: the document emitters iterate the element list forward and skip exactly the non-content elements. O5: every builder method that appends a non-text element flushes the pending text block first, so an element cannot overtake text that precedes it. O6: synthesised figure captions are the visibility-aware text of a re-parsed fragment (nothing fabricated from markup); table text and HTML are rendered from the one clone."
+	r.Explanation = "Order-preservation skeleton: between `the walk visits text nodes in document order` and `the output concatenates content elements` no step can reorder or duplicate. O1: the child loops on the output paths (WalkNodes, TreeClone, InnerText, dom.Clone) start at FirstChild, advance by NextSibling and attach with AppendChild only. O2: every writer of the sequence carriers (Document.Elements, TextDocument.TextBlocks, TextBlock.TextElements, TextBuilder.textNodes, Text.TextNodes) is an append to the field itself, the constructor's initial value, or the shift-left-by-one delete idiom (copy(s[i:], s[i+1:]) + truncate) on the same slice; none is sorted and no element is overwritten. O3: TextBuilder.Build hands out the window [firstNode, len(textNodes)) and every non-nil result is followed by Reset, which moves firstNode to len(textNodes) (disjoint windows). O4: the document emitters iterate the element list forward and skip exactly the non-content elements. O5: every builder method that appends a non-text element flushes the pending text block first, so an element cannot overtake text that precedes it. O6: synthesised figure captions are the visibility-aware text of a re-parsed fragment (nothing fabricated from markup); table text and HTML are rendered from the one clone. O7: the visibility decision list used by the walk, the table/caption cloner and InnerText is the documented one (shared with C04-V3)."
 	r.NotCovered = "fabrication by the classifier (none: it only flags), which blocks are selected, adjacency of merged blocks, the javascript: anchor rewriting (C03), correctness of the HTML serializer."
 
 	c := core.NewCanon(p)
@@ -266,45 +266,8 @@ func C02(p *core.Program, r *core.Report) {
 		r.Add("O4", core.ShortKey(fn)+" emits exactly the content elements", p.Pos(fn.Pos()), bad == 0 && len(paths) >= 2, fmt.Sprintf("%d iteration paths, %d wrong", len(paths), bad))
 	}
 
-	// ---- O5 (builder methods with their helpers expanded: flushing is recognised by what it does -
-	// it asks the text builder for the pending Text and appends that - not by a helper's name)
-	isAdd := func(ci ssa.CallInstruction) bool { return core.IsCallTo(ci, "(*"+webdocPkg+".Document).AddElements") }
-	isBuild := func(in ssa.Instruction) bool { return core.IsCallTo(in, "(*"+webdocPkg+".TextBuilder).Build") }
-	fromBuild := func(call ssa.CallInstruction) bool {
-		// the pending text is the only *webdoc.Text a builder method appends
-		for _, a := range call.Common().Args[1:] {
-			if el := appendedElem2(a); el != nil {
-				a = el
-			}
-			if nt := core.NamedOf(core.StripConv(a).Type()); nt != nil && nt.Obj().Name() == "Text" {
-				return true
-			}
-		}
-		return false
-	}
-	for _, m := range []string{"AddDataTable", "AddTag", "AddEmbed"} {
-		fn := mustInl(p, r, "O5", "(*"+webdocPkg+".WebDocumentBuilder)."+m)
-		if fn == nil {
-			continue
-		}
-		var own, text []ssa.CallInstruction
-		for _, a := range core.Calls(fn, isAdd) {
-			if fromBuild(a) {
-				text = append(text, a)
-			} else {
-				own = append(own, a)
-			}
-		}
-		if len(own) != 1 {
-			r.Add("O5", m+" appends one element", p.Pos(fn.Pos()), false, fmt.Sprintf("%d AddElements calls for elements other than the pending text", len(own)))
-			continue
-		}
-		ok, _ := core.MustPassThrough(fn, own[0], isBuild, nil)
-		r.Add("O5", m+" flushes the pending text before appending its element", p.Pos(own[0].Pos()), ok && len(text) >= 1, "otherwise earlier text would be emitted after the element")
-		for _, t := range text {
-			r.Add("O5", m+": the pending text is appended once", p.Pos(t.Pos()), !inLoop(t.Block()) && len(text) == 1 && neverAfter(t, own[0]), fmt.Sprintf("%d appends of the pending text", len(text)))
-		}
-	}
+	// ---- O5
+	checkFlushBeforeElement(p, r, "O5")
 	// the converter hands each text node to the builder once (dispatcher: C04-V1) and the builder
 	// appends it once
 	if an := mustInl(p, r, "O5", "(*"+webdocPkg+".TextBuilder).AddTextNode"); an != nil && nodes != "" {
@@ -316,6 +279,9 @@ func C02(p *core.Program, r *core.Report) {
 		}
 		r.Add("O5", "a text node is collected once", p.Pos(an.Pos()), n == 1, fmt.Sprintf("%d appends to the node list", n))
 	}
+
+	// ---- O7: what counts as visible (shared with C04-V3): hidden text must not be emitted
+	checkVisibilityRules(p, r, "O7")
 
 	// ---- O6
 	if cf := mustInl(p, r, "O6", "(*mod/internal/extractor/embed.ImageExtractor).Extract"); cf != nil {
@@ -391,4 +357,48 @@ func loopHeadersContaining(fn *ssa.Function, name string) []*ssa.BasicBlock {
 		}
 	}
 	return out
+}
+
+// checkFlushBeforeElement (O5 of C02, shared with C08-E5): every builder method that appends a
+// non-text element flushes the pending text block first, so an element cannot overtake the text
+// that precedes it in the document (builder methods with their helpers expanded: flushing is
+// recognised by what it does - it asks the text builder for the pending Text and appends that).
+func checkFlushBeforeElement(p *core.Program, r *core.Report, rule string) {
+	isAdd := func(ci ssa.CallInstruction) bool { return core.IsCallTo(ci, "(*"+webdocPkg+".Document).AddElements") }
+	isBuild := func(in ssa.Instruction) bool { return core.IsCallTo(in, "(*"+webdocPkg+".TextBuilder).Build") }
+	fromBuild := func(call ssa.CallInstruction) bool {
+		// the pending text is the only *webdoc.Text a builder method appends
+		for _, a := range call.Common().Args[1:] {
+			if el := appendedElem2(a); el != nil {
+				a = el
+			}
+			if nt := core.NamedOf(core.StripConv(a).Type()); nt != nil && nt.Obj().Name() == "Text" {
+				return true
+			}
+		}
+		return false
+	}
+	for _, m := range []string{"AddDataTable", "AddTag", "AddEmbed"} {
+		fn := mustInl(p, r, rule, "(*"+webdocPkg+".WebDocumentBuilder)."+m)
+		if fn == nil {
+			continue
+		}
+		var own, text []ssa.CallInstruction
+		for _, a := range core.Calls(fn, isAdd) {
+			if fromBuild(a) {
+				text = append(text, a)
+			} else {
+				own = append(own, a)
+			}
+		}
+		if len(own) != 1 {
+			r.Add(rule, m+" appends one element", p.Pos(fn.Pos()), false, fmt.Sprintf("%d AddElements calls for elements other than the pending text", len(own)))
+			continue
+		}
+		ok, _ := core.MustPassThrough(fn, own[0], isBuild, nil)
+		r.Add(rule, m+" flushes the pending text before appending its element", p.Pos(own[0].Pos()), ok && len(text) >= 1, "otherwise earlier text would be emitted after the element")
+		for _, t := range text {
+			r.Add(rule, m+": the pending text is appended once", p.Pos(t.Pos()), !inLoop(t.Block()) && len(text) == 1 && neverAfter(t, own[0]), fmt.Sprintf("%d appends of the pending text", len(text)))
+		}
+	}
 }
